@@ -128,6 +128,9 @@ def gen_opts(rng, backend):
     # a quarter of the clusters talk: a SUCCESSFUL sbatch / bsub also prints harmless informational lines (job_submit
     # plugin / esub notices, default-queue warnings) on stderr, or on stdout before / after the acceptance line
     o["chatter"] = "none" if rng.random() < 0.75 else rng.choice(["stderr", "stderr", "stdout_before", "stdout_after", "all", "digits_before"])
+    # the acceptance LINE may be missing although the job is accepted and its id printed: a site wrapper / alias running
+    # `sbatch --parsable` prints "<id>" or "<id>;<cluster>"; the LSF analogue is a wrapper that echoes only the id
+    o["acceptance"] = "parsable" if rng.random() < 0.12 else "standard"
     if backend == "slurm":
         # multi-cluster / federated Slurm (SLURM_CLUSTERS, -M): sbatch names the cluster in its answer
         o["federated"] = rng.random() < 0.3
@@ -358,6 +361,8 @@ class Cluster:
             out = "Job <%s> is submitted to default queue <%s>." % (jid, self.opts["queue"])
         else:
             out = "Job <%s> is submitted to queue <%s>." % (jid, self.opts["queue"])
+        if self.opts.get("acceptance") == "parsable":
+            out = jid + (";%s" % self.opts["cluster"] if prog == "sbatch" and self.opts.get("federated") else "")
         out += "\n"
         self.stat("accept:" + re.sub(r"[0-9]+", "N", re.sub(r"<[^0-9>]+>|cluster \S+", "_", out.strip())))
         name = job_name_of(path, prog)
@@ -368,6 +373,8 @@ class Cluster:
         self.last["accepted"] = jid
         err = ""
         mode = self.opts.get("chatter", "none")
+        if mode == "digits_before" and self.opts.get("acceptance") == "parsable":
+            mode = "stdout_before"      # a bare id after a line with a number is ambiguous for anybody: not generated
         if mode != "none" and self.rr.random() < 0.8:
             ch = CHATTER[prog]
             if mode in ("stderr", "all"):
@@ -747,6 +754,41 @@ def build_dag(nodes, cfg, root, opts):
     return dag
 
 
+def snapshot_check(dag, root):
+    """What Conductor.monitor_study does after every poll -- dag.pickle(<study>.pkl) (dill) -- followed by
+    ExecutionGraph.unpickle of that file: the snapshot must be writable, loadable, and show the same step states.
+    Returns None or what is wrong."""
+    path = os.path.join(root, "snapshot_check.pkl")
+
+    def view(g):
+        recs = []
+        for k in dag.real_keys:
+            r = g.values[k]
+            recs.append([k, r.status.name, [str(j) for j in r.jobid], r.restarts, str(r.script), str(r.restart_script),
+                         bool(r.to_be_scheduled)])
+        return {"steps": recs, "in_progress": sorted(g.in_progress), "completed": sorted(g.completed_steps),
+                "failed": sorted(g.failed_steps), "cancelled": sorted(g.cancelled_steps), "ready": list(g.ready_steps),
+                "canceled": bool(g.is_canceled)}
+    try:
+        dag.pickle(path)
+    except Exception as e:
+        size = os.path.getsize(path) if os.path.exists(path) else -1
+        return "the execution-graph snapshot cannot be written: %s: %s (file left with %d bytes)" % (
+            type(e).__name__, str(e)[:120], size)
+    try:
+        back = type(dag).unpickle(path)
+    except Exception as e:
+        return "the execution-graph snapshot just written cannot be loaded: %s: %s" % (type(e).__name__, str(e)[:120])
+    try:
+        a, b = view(dag), view(back)
+    except Exception as e:
+        return "the loaded execution-graph snapshot cannot be read: %s: %s" % (type(e).__name__, str(e)[:120])
+    if a != b:
+        k = [x for x in a if a[x] != b[x]][0]
+        return "the loaded execution-graph snapshot differs from the live graph in %s: %r vs %r" % (k, b[k], a[k])
+    return None
+
+
 def rows_of(dag, n, cl):
     rows = []
     for i in range(n):
@@ -820,6 +862,13 @@ def run_history_real(nodes, cfg, rng, backend, profile="mixed", max_polls=14, ca
             return pin
 
         def record(pin, status):
+            if "snapshot_violation" not in case:
+                bad = snapshot_check(dag, root)
+                if bad:
+                    case["snapshot_violation"] = "poll %d: %s" % (state["k"], bad)
+                    case["snapshot_poll"] = state["k"]
+                else:
+                    cl.stat("snapshots written and loaded back")
             try:
                 rows = rows_of(dag, n, cl)
             except Exception as e:
@@ -868,6 +917,7 @@ def run_history_real(nodes, cfg, rng, backend, profile="mixed", max_polls=14, ca
     if cl.other:
         case["unexpected_commands"] = cl.other[:5]
     case["real_stats"] = cl.stats
+    case["_cluster_order"] = list(cl.order)
     CL = None
     return case
 
@@ -919,14 +969,15 @@ def rerun(d, via_conductor=False):
 
 
 def violations(cases, pidnum):
-    """(what, case) for histories in which the scheduler holds a live job Maestro does not count
-    (C03: uncounted against the throttle; C04: orphaned).  The case is cut after the poll of the first
-    such job; exec_props.strip keeps its origin (= the cluster options), so it replays through the same adapter."""
+    """(what, case) for real-adapter histories that violate a property whatever the engine-level trace says:
+    * the scheduler holds a live job Maestro does not count (C03: uncounted against the throttle; C04: orphaned);
+    * the execution-graph snapshot the conductor writes after every poll cannot be written / loaded back or shows other
+      step states (C18); a conductor that dies on it mid-study leaves its jobs behind and never reaches a verdict (C04, C05).
+    The case is cut after the offending poll; exec_props.strip keeps its origin (= the cluster options), so it replays
+    through the same adapter."""
     out = []
-    if pidnum not in (3, 4):
-        return out
     for c in cases:
-        if c.get("real_violation"):
+        if c.get("real_violation") and pidnum in (3, 4):
             k = min(o["poll"] for o in c["orphans"])
             first = [o for o in c["orphans"] if o["poll"] == k]
             what = ("real %s adapter: %s (poll %d, step n%d, the scheduler answered %r); %d such job(s) alive and untracked "
@@ -934,7 +985,51 @@ def violations(cases, pidnum):
                     (c["real"]["backend"], c["real_violation"], k, first[0]["node"] if first[0]["node"] is not None else -1,
                      first[0]["answer"], len(c["orphans"]), c["cfg"]["throttle"]))
             out.append((what, dict(c, polls=c["polls"][:k + 1])))
+        if c.get("snapshot_violation") and pidnum in (18, 4, 5):
+            k = c.get("snapshot_poll", len(c["polls"]) - 1)
+            live = [j for j in c["_cluster_order"]] if "_cluster_order" in c else []
+            what = ("real %s adapter: %s; Conductor.monitor_study writes this snapshot after every poll: it dies here, "
+                    "mid-study%s" % (c["real"]["backend"], c["snapshot_violation"],
+                                     ", with %d job(s) accepted by the scheduler so far" % len(live) if live else ""))
+            out.append((what, dict(c, polls=c["polls"][:k + 1])))
     return out
+
+
+def snapshot_histories(ck, n, tag="real"):
+    """Entry for harness/props/c18.py: the corpus plus n random histories through the real Slurm / LSF adapters (direct
+    and through the real Conductor.monitor_study loop); after EVERY poll the graph is dill-pickled the way the conductor
+    does and loaded back (snapshot_check).  A snapshot that cannot be written / loaded or shows other step states is a
+    concrete C18 violation; returns (number of histories, histogram)."""
+    from collections import Counter
+    from harness import exec_props as X
+    rng = random.Random(ck.seed * 7919 + 1818)
+    cases = corpus_cases()
+    for _ in range(n):
+        shape, nodes = H.gen_graph(rng, nmax=7)
+        cfg = H.gen_cfg(rng, len(nodes), dry=rng.random() < 0.05)
+        c = run_history_real(nodes, cfg, rng, rng.choice(BACKENDS), profile=rng.choice(list(H.PROFILES)), max_polls=12,
+                             fair_after=rng.choice([None, 3, 6]), fair_bound=60, via_conductor=rng.random() < 0.4)
+        c["shape"] = shape
+        cases.append(c)
+    hist = Counter()
+    for c in cases:
+        npolls = len(c["polls"])
+        ck.count(("real-snapshots", X.case_key(c)), nontrivial=npolls >= 2 and bool(c["_cluster_order"]), n=max(1, npolls))
+        hist["histories:" + c["real"]["backend"]] += 1
+        hist["snapshots written and loaded back"] += c["real_stats"].get("snapshots written and loaded back", 0)
+        hist["acceptance:" + str(c["real"].get("acceptance", "standard"))] += 1
+        hist["driver:" + ("Conductor.monitor_study" if c.get("via_conductor") else "direct")] += 1
+        if c["end"] == "exc" and not c.get("snapshot_violation"):
+            ck.mismatch("real %s adapter history raised %s" % (c["real"]["backend"], c.get("exc")), X.strip(c), "")
+    for what, c in violations(cases, 18):
+        ck.violation(what, dict(X.strip(c), snapshot_violation=c["snapshot_violation"]))
+    ck.cov["real_adapter_snapshots"] = {
+        "rule": "corpus/exec_real + random histories through the real Slurm/LSF adapters over the scripted process layer "
+                "(acceptance texts incl. --parsable style '<id>[;<cluster>]', chatter, blank/tab step names); after every poll "
+                "dag.pickle (dill) to a file + ExecutionGraph.unpickle + comparison of step states, job ids, restart counts, "
+                "script paths and the in-progress/completed/failed/cancelled/ready sets with the live graph",
+        "histogram": dict(sorted(hist.items()))}
+    return len(cases), dict(sorted(hist.items()))
 
 
 def replay(ck, pidnum, d):
@@ -942,10 +1037,14 @@ def replay(ck, pidnum, d):
     from harness import exec_props as X
     d = d.get("case", d)
     c = rerun(d)
-    print(json.dumps(dict(X.strip(c), orphans=c["orphans"], real_violation=c.get("real_violation")), indent=1))
+    print(json.dumps(dict(X.strip(c), orphans=c["orphans"], real_violation=c.get("real_violation"),
+                          snapshot_violation=c.get("snapshot_violation")), indent=1))
     rc = 0
     if c.get("real_violation") and pidnum in (3, 4):
         print("real-adapter violation:", c["real_violation"])
+        rc = 1
+    if c.get("snapshot_violation") and pidnum in (18, 4, 5):
+        print("real-adapter violation:", c["snapshot_violation"])
         rc = 1
     if H.representable(c):
         lit = H.g_case(c)
@@ -995,6 +1094,9 @@ def selftest(n, seed, biases=None):
                 dist["federated"] += 1
             dist["names:" + str(c["real"].get("names", "plain"))] += 1
             dist["chatter:" + str(c["real"].get("chatter", "none"))] += 1
+            dist["acceptance:" + str(c["real"].get("acceptance", "standard"))] += 1
+            if c.get("snapshot_violation"):
+                dist["snapshot_violation"] += 1
             for k, v in c.get("real_stats", {}).items():
                 dist["cluster " + k] += v
             for p in c["polls"]:
@@ -1021,7 +1123,9 @@ def selftest(n, seed, biases=None):
             print("  corr_ok:", common.coq_eval("exec_real_self_e", H.HEADER, "corr_ok (%s)" % lits[i]))
             print("  impl_viol:", common.coq_eval("exec_real_self_e", H.HEADER, "impl_viol (%s)" % lits[i]))
             print("  model_obs:", common.coq_eval("exec_real_self_e", H.HEADER, "model_obs (%s)" % lits[i])[-2500:])
-        total_bad += len(bad) + len(crashed) + len(errs) + sum(1 for c in cases if c.get("real_violation"))
+        for c in [c for c in cases if c.get("snapshot_violation")][:3]:
+            print("SNAPSHOT:", c["snapshot_violation"], json.dumps(X.strip(c))[:1200])
+        total_bad += len(bad) + len(crashed) + len(errs) + sum(1 for c in cases if c.get("real_violation") or c.get("snapshot_violation"))
     return 1 if total_bad else 0
 
 
